@@ -797,6 +797,7 @@ package spec
 //@   ensures  context-kept @@ context != nil ==> result.context == context
 //@   ensures  base-kept @@ expandOptions != nil && old(expandOptions.RelativeBase) != "" ==> expandOptions.RelativeBase == old(expandOptions.RelativeBase) && cacheDom == old(cacheDom) && cacheDoc == old(cacheDoc)
 //@   ensures  base-defaulted @@ result.options.RelativeBase != ""
+//@   ensures  base-defaulted-root @@ expandOptions != nil && old(expandOptions.RelativeBase) == "" ==> expandOptions.RelativeBase == normBase(".root")
 //@   ensures  [C18] cache-monotone @@ forall u string :: u != normBase(".root") && old(cacheDom[u]) ==> cacheDom[u] && cacheDoc[u] == old(cacheDoc[u])
 
 // ---- the recursion: common vocabulary
@@ -1059,3 +1060,28 @@ package spec
 //@   loop 1 invariant forall u string :: old(cacheDom[u]) ==> cacheDom[u]
 //@   loop 1 invariant forall k string :: old(has(resolver0.context.circulars, k)) ==> has(resolver0.context.circulars, k)
 //@   loop 1 invariant forall l *schemaLoader :: allocated(l) ==> l.root == old(l.root) && l.options == old(l.options) && l.cache == old(l.cache) && l.context == old(l.context)
+
+// ---- entry points
+
+//@ func ExpandSpec
+//@   strings  uninterpreted
+//@   property C04, C08, C18, C10
+//@   requires spec != nil
+//@   loop 0 invariant wfResolver(resolver) && canonBase(specBasePath) && resolver.options.ContinueOnError == (options0 != nil && old(options0.ContinueOnError))
+//@   loop 0 invariant failures >= old(failures) && (!resolver.options.ContinueOnError ==> failures == old(failures))
+//@   loop 0 invariant forall u string :: old(cacheDom[u]) ==> cacheDom[u] || u == normBase(".root")
+//@   loop 1 invariant wfResolver(resolver) && canonBase(specBasePath) && resolver.options.ContinueOnError == (options0 != nil && old(options0.ContinueOnError))
+//@   loop 1 invariant failures >= old(failures) && (!resolver.options.ContinueOnError ==> failures == old(failures))
+//@   loop 1 invariant forall u string :: old(cacheDom[u]) ==> cacheDom[u] || u == normBase(".root")
+//@   loop 2 invariant wfResolver(resolver) && canonBase(specBasePath) && resolver.options.ContinueOnError == (options0 != nil && old(options0.ContinueOnError))
+//@   loop 2 invariant failures >= old(failures) && (!resolver.options.ContinueOnError ==> failures == old(failures))
+//@   loop 2 invariant forall u string :: old(cacheDom[u]) ==> cacheDom[u] || u == normBase(".root")
+//@   loop 3 invariant wfResolver(resolver) && canonBase(specBasePath) && resolver.options.ContinueOnError == (options0 != nil && old(options0.ContinueOnError))
+//@   loop 3 invariant failures >= old(failures) && (!resolver.options.ContinueOnError ==> failures == old(failures))
+//@   loop 3 invariant forall u string :: old(cacheDom[u]) ==> cacheDom[u] || u == normBase(".root")
+//@   assumes  [C04] root-location-wellformed @@ options != nil && options.RelativeBase != "" ==> canonBase(normBase(options.RelativeBase))
+//@   assumes  [C04] pseudo-root-wellformed @@ canonBase(normBase(".root"))
+//@   ensures  [C08] strict-propagates @@ (options == nil || !old(options.ContinueOnError)) && failures > old(failures) ==> result != nil
+//@   ensures  [C08] no-spurious-error @@ result != nil ==> failures > old(failures)
+//@   ensures  [C08] continue-silent @@ options != nil && old(options.ContinueOnError) ==> result == nil
+//@   ensures  [C08] failures-monotone @@ failures >= old(failures)
